@@ -33,160 +33,303 @@ FC = "symmray.fermionic_core"
 LA = "symmray.linalg"
 
 
-def _flip_test(ctx, f, var_hint=None):
-    """all (`If` node, test source) that guard a phase_flip / negation in f and test an index direction"""
-    out = []
-    for n in ast.walk(f.node):
-        if isinstance(n, ast.If) and ".dual" in src(n.test):
-            body_src = " ".join(src(s) for s in n.body)
-            if "phase_flip" in body_src or "= -" in body_src:
-                out.append(n)
+def _signs(arr):
+    """sector -> +1/-1: the sign an abstract array carries relative to its original tokens (pending sign x negated token)"""
+    out = {}
+    for sec, tok in arr.fields["_blocks"].items():
+        sg = 1
+        t = tok.term
+        while isinstance(t, tuple) and t and t[0] == "neg":
+            sg = -sg
+            t = t[1]
+        if arr.fields.get("_phases", {}).get(sec, 1) == -1:
+            sg = -sg
+        out[sec] = sg
     return out
 
 
 def check_convention(prog, ctx):
+    """R03.1 by abstract evaluation with the block-level core stubbed out: each fermionic wrapper is evaluated on token
+    arrays for every direction pattern of the contracted pair, and the sign it inserts on each sector must be
+    (-1)^(parity of the contracted charge) iff the pair is ket-then-bra (first index non-dual, second dual)."""
+    import itertools
+
+    from engine.absarray import Tok, evaluator, make_array, make_index
+    from engine.minieval import Obj, Raised, Unsupported
+
     rid = "R03.1"
-    sites = 0
+    fcls = prog.cls("FermionicArray")
+    SEC2 = [(0, 0), (0, 1), (1, 0), (1, 1)]
 
-    def site(f, node, what, ok):
-        nonlocal sites
-        sites += 1
-        ctx.check(ok, rid, f, node, src(node.test)[:100] if hasattr(node, "test") else src(node)[:100], what)
+    def guard(fn_name, thunk):
+        try:
+            return thunk()
+        except Unsupported as e:
+            raise AnalysisError(f"{fn_name} outside the evaluable sub-language: {e}")
 
-    # --- tensordot_fermionic
-    f = prog.func(f"{FC}:tensordot_fermionic")
-    na = [a for a in walk_own(f.node) if isinstance(a, ast.Assign) and src(a.targets[0]) == "new_axes_a"]
-    nb = [a for a in walk_own(f.node) if isinstance(a, ast.Assign) and src(a.targets[0]) == "new_axes_b"]
-    ctx.need(len(na) == 1 and len(nb) == 1, "tensordot_fermionic: new_axes_a / new_axes_b not found")
-    ctx.check(src(na[0].value) == "tuple(range(ndim_a - ncon, ndim_a))" and src(nb[0].value) == "tuple(range(ncon))", rid, f, na[0],
-              "axes after transposition", "after the transposes the contracted axes are a's last ncon and b's first ncon")
-    flips = []
-    for a in ast.walk(f.node):
-        if isinstance(a, ast.Assign) and isinstance(a.value, ast.Call) and src(a.value.func) == "tuple" and a.value.args \
-                and isinstance(a.value.args[0], ast.GeneratorExp) and a.value.args[0].generators[0].ifs \
-                and ".dual" in src(a.value.args[0].generators[0].ifs[0]):
-            flips.append(a)
-    ctx.need(len(flips) == 2, f"tensordot_fermionic: expected two direction-selected flip sets, found {len(flips)}")
-    for a in flips:
-        g = a.value.args[0].generators[0]
-        it, test = src(g.iter), src(g.ifs[0]).replace("(", "").replace(")", "")
-        if it == "new_axes_a":
-            site(f, g.ifs[0] if False else a, "left operand: flip the contracted legs that are NON-dual (ket-then-bra)", test == "not a.indices[ax].dual")
-        elif it == "new_axes_b":
-            site(f, a, "right operand: flip the contracted legs that are DUAL (ket-then-bra)", test == "b.indices[ax].dual")
-        else:
-            site(f, a, "flip set ranges over the contracted axes of one operand", False)
-    # exactly one of the two flips happens
-    br = [n for n in walk_own(f.node) if isinstance(n, ast.If) and "size" in src(n.test)]
-    ok = len(br) == 1 and "a.phase_flip" in " ".join(src(s) for s in br[0].body) and "b.phase_flip" in " ".join(src(s) for s in br[0].orelse) \
-        and "b.phase_flip" not in " ".join(src(s) for s in br[0].body)
-    ctx.check(ok, rid, f, br[0] if br else f.node, "one flip", "the pair sign is inserted on exactly one of the two operands")
+    # ---------------- matmul: pair = (self.indices[-1], other.indices[0])
+    f = prog.lookup_method(fcls, "__matmul__")
+    bad = None
+    n = 0
+    for da, db in itertools.product((False, True), repeat=2):
+        rec = []
 
-    # --- matmul
-    f = prog.func(f"{FC}:FermionicArray.__matmul__")
-    t = _flip_test(ctx, f)
-    ctx.need(len(t) == 1, "FermionicArray.__matmul__: pair-sign site not found")
-    site(f, t[0], "matmul: the right operand's first index dual => sign", src(t[0].test) == "other.indices[0].dual"
-         and src(t[0].body[0]) == "other = other.phase_flip(0)")
+        def core(a, b, preserve_array=False, _rec=rec):
+            _rec.append((a, b))
+            return make_array(prog, [(0, 0)], (False, True), fermionic=True)
 
-    # --- trace
-    f = prog.func(f"{FC}:FermionicArray.trace")
-    un = [a for a in walk_own(f.node) if isinstance(a, ast.Assign) and isinstance(a.targets[0], ast.Tuple) and src(a.value) == "self.indices"]
-    ctx.need(len(un) == 1, "FermionicArray.trace: index unpack not found")
-    l, r = [src(e) for e in un[0].targets[0].elts]
-    ifs = [n for n in walk_own(f.node) if isinstance(n, ast.If)]
-    ctx.need(len(ifs) >= 1, "FermionicArray.trace: direction switch not found")
-    top = ifs[0] if src(ifs[0].test).startswith(l) or src(ifs[0].test).startswith("not") else ifs[0]
-    chain = []
-    cur = [n for n in walk_own(f.node) if isinstance(n, ast.If) and not any(n in p.orelse for p in ifs if p is not n)]
-    cur = cur[0]
-    while True:
-        chain.append(cur)
-        if len(cur.orelse) == 1 and isinstance(cur.orelse[0], ast.If):
-            cur = cur.orelse[0]
-        else:
-            break
-    tests = {src(c.test): " ".join(src(s) for s in c.body) for c in chain}
-    ok = tests.get(f"{l}.dual and (not {r}.dual)", "x") .count("phase_flip") == 0 and \
-        "phase_flip(0)" in tests.get(f"not {l}.dual and {r}.dual", "")
-    site(f, chain[0], "trace: (bra, ket) needs no sign; (ket, bra) flips the first index; anything else raises", ok
-         and isinstance(chain[-1].orelse[0], ast.Raise) if chain[-1].orelse else False)
+        a = make_array(prog, SEC2, (False, da), fermionic=True)
+        b = make_array(prog, SEC2, (db, True), fermionic=True)
+        ev = evaluator(prog, extra={"AbelianArray.__matmul__": core, "resolve_combined_oddpos": lambda *x: None})
+        try:
+            guard("FermionicArray.__matmul__", lambda: ev.call(f, [b], self_obj=a))
+        except Raised as e:
+            bad = bad or f"duals {da},{db}: raised {e.what[:60]}"
+            continue
+        n += 1
+        if len(rec) != 1:
+            bad = bad or "block-level matmul not called exactly once"
+            continue
+        sa, sb = _signs(rec[0][0]), _signs(rec[0][1])
+        for sec in SEC2:
+            # convention: one sign per odd contracted charge iff the second index of the pair (b's first) is dual;
+            # the library puts it on b
+            want = -1 if (db and sec[0] % 2) else 1
+            if sb[sec] != want or sa[sec] != 1:
+                bad = bad or f"right first index dual={db}: sector {sec} carries signs a={sa[sec]} b={sb[sec]}, expected b={want}"
+    ctx.check(bad is None, rid, f, f.node, "matmul pair sign",
+              f"matmul inserts the ket-then-bra sign iff the right operand's first index is dual ({n} direction patterns)"
+              + ("" if bad is None else f" — witness: {bad}"))
 
-    # --- einsum sort key
-    f = prog.func(f"{FC}:FermionicArray.einsum")
-    keyf = [n for n in ast.walk(f.node) if isinstance(n, ast.FunctionDef) and n.name == "key"]
-    ctx.need(len(keyf) == 1, "FermionicArray.einsum: sort key not found")
-    ret = [x for x in ast.walk(keyf[0]) if isinstance(x, ast.Return)][0].value
-    ok = isinstance(ret, ast.Tuple) and len(ret.elts) == 3 and src(ret.elts[2]) == "not self.indices[i].dual"
-    site(f, keyf[0], "einsum: traced pairs are ordered (dual, non-dual) = (bra, ket), which needs no pair sign", ok)
-    srt = [c for c in walk_own(f.node) if isinstance(c, ast.Call) and src(c.func) == "sorted" and any(k.arg == "key" for k in c.keywords)]
-    ctx.check(len(srt) == 1 and "self.transpose(perm)" in src(f.node), rid, f, f.node, "einsum transposes", "the ordering is applied by a fermionic transpose")
+    # ---------------- trace: pair = (indices[0], indices[1])
+    f = prog.lookup_method(fcls, "trace")
+    bad = None
+    for d0, d1 in itertools.product((False, True), repeat=2):
+        rec = []
 
-    # --- linalg wrappers
-    for name, var, pos, positive in (("qr_fermionic", "r", 0, True), ("svd_fermionic", "vh", 0, True), ("solve_fermionic", "x", 0, True)):
-        f = prog.func(f"{LA}:{name}")
-        t = _flip_test(ctx, f)
-        ctx.need(len(t) == 1, f"{name}: pair-sign site not found")
-        want = f"{var}.indices[{pos}].dual"
-        site(f, t[0], f"{name}: right factor `{var}`: its first (bond) index dual => sign",
-             src(t[0].test) == want and f"{var}.phase_flip({pos}, inplace=True)" in src(t[0].body[0]))
-    f = prog.func(f"{LA}:eigh_fermionic")
-    t = _flip_test(ctx, f)
-    ctx.need(len(t) == 1, "eigh_fermionic: pair-sign site not found")
-    ok = src(t[0].test) == "not a.indices[1].dual"
-    inner = [n for n in ast.walk(t[0]) if isinstance(n, ast.If) and "parity" in src(n.test)]
-    ok = ok and len(inner) == 1 and any(isinstance(s, ast.Assign) and src(s.value).startswith("-") for s in inner[0].body)
-    site(f, t[0], "eigh: left factor's bond index non-dual => sign, carried by the odd-parity eigenvalues", ok)
+        def core(x, _rec=rec):
+            _rec.append(x)
+            return 0.0
 
-    # --- inventory: no other direction-dependent sign site in the fermionic modules
-    known = {"tensordot_fermionic", "FermionicArray.__matmul__", "FermionicArray.trace", "FermionicArray.einsum", "qr_fermionic",
-             "svd_fermionic", "solve_fermionic", "eigh_fermionic",
-             # not pair signs: conjugation (C10), fusing of dual groups (C05)
-             "FermionicArray.conj", "FermionicArray.dagger", "FermionicArray.fuse", "FermionicArray.unfuse",
-             # label sort (C04): the direction tested is that of an odd-position label, not of an index
-             "resolve_combined_oddpos"}
-    for mod in (FC, LA):
-        for g in prog.module(mod).all_funcs:
-            if g.parent is not None:
+        x = make_array(prog, SEC2, (d0, d1), fermionic=True)
+        ev = evaluator(prog, extra={"AbelianArray.trace": core})
+        try:
+            guard("FermionicArray.trace", lambda: ev.call(f, [], self_obj=x))
+            raised = False
+        except Raised:
+            raised = True
+        if d0 == d1:
+            if not raised:
+                bad = bad or f"trace of a matrix with equal directions ({d0},{d1}) did not raise"
+            continue
+        if raised or len(rec) != 1:
+            bad = bad or f"trace with directions ({d0},{d1}) raised or did not reach the block-level trace"
+            continue
+        sg = _signs(rec[0])
+        for sec in SEC2:
+            want = -1 if ((not d0) and d1 and sec[0] % 2) else 1   # ket-then-bra: first non-dual, second dual
+            if sg[sec] != want:
+                bad = bad or f"directions ({d0},{d1}): sector {sec} sign {sg[sec]}, expected {want}"
+    ctx.check(bad is None, rid, f, f.node, "trace pair sign",
+              "trace inserts the pair sign iff the matrix is (ket, bra) ordered and raises for equal directions"
+              + ("" if bad is None else f" — witness: {bad}"))
+
+    # ---------------- decompositions: right factor's first index is the second index of the pair
+    for wrapper, generic, outs in (("qr_fermionic", "qr", 2), ("svd_fermionic", "svd", 3)):
+        f = prog.func(f"{LA}:{wrapper}")
+        bad = None
+        for d in (False, True):
+            x = make_array(prog, SEC2, (False, d), fermionic=True)
+            left = make_array(prog, SEC2, (False, d), fermionic=True)
+            right = make_array(prog, [(0, 0), (1, 1)], (not d, d), fermionic=True)
+            ret = (left, right) if outs == 2 else (left, Obj(prog.cls("BlockVector"), {"_blocks": {}}), right)
+            ev = evaluator(prog, extra={f"{generic}.dispatch": lambda cls, _r=ret: (lambda *a, **k: _r)})
+            try:
+                res = guard(wrapper, lambda: ev.call(f, [x]))
+            except Raised as e:
+                bad = bad or f"raised {e.what[:60]}"
                 continue
-            uses_dual = any(isinstance(n, ast.Attribute) and n.attr == "dual" for n in ast.walk(g.node))
-            flips = any(isinstance(n, ast.Call) and isinstance(n.func, ast.Attribute) and n.func.attr in ("phase_flip", "phase_global")
-                        for n in ast.walk(g.node))
-            if uses_dual and flips:
-                ctx.check(g.qualname in known, rid, g, g.node, "unclassified sign site",
-                          f"{g.qualname}: direction-dependent sign site is in the classified table")
-    ctx.minimum(rid, 12, "nine classified sites + inventory")
+            sl, sr = _signs(res[0]), _signs(res[-1])
+            for sec, sg in sr.items():
+                want = -1 if ((not d) and sec[0] % 2) else 1   # right.indices[0].dual == (not d)
+                if sg != want:
+                    bad = bad or f"bond direction dual={not d} on the right factor: sector {sec} sign {sg}, expected {want}"
+            if any(v != 1 for v in sl.values()):
+                bad = bad or "the left factor received a sign"
+        ctx.check(bad is None, rid, f, f.node, f"{wrapper} pair sign",
+                  f"{wrapper} puts the pair sign on the right factor iff its bond index (second of the pair) is dual"
+                  + ("" if bad is None else f" — witness: {bad}"))
+
+    f = prog.func(f"{LA}:solve_fermionic")
+    bad = None
+    for d in (False, True):
+        a = make_array(prog, SEC2, (False, True), fermionic=True)
+        bvec = make_array(prog, [(0,), (1,)], (False,), fermionic=True)
+        xsol = make_array(prog, [(0,), (1,)], (d,), fermionic=True)
+        ev = evaluator(prog, extra={"solve.dispatch": lambda cls, _r=xsol: (lambda *a_, **k: _r)})
+        try:
+            res = guard("solve_fermionic", lambda: ev.call(f, [a, bvec]))
+        except Raised as e:
+            bad = bad or f"raised {e.what[:60]}"
+            continue
+        for sec, sg in _signs(res).items():
+            want = -1 if (d and sec[0] % 2) else 1
+            if sg != want:
+                bad = bad or f"solution index dual={d}: sector {sec} sign {sg}, expected {want}"
+    ctx.check(bad is None, rid, f, f.node, "solve pair sign", "solve puts the pair sign on the solution iff its index (second of the pair) is dual"
+              + ("" if bad is None else f" — witness: {bad}"))
+
+    f = prog.func(f"{LA}:eigh_fermionic")
+    bad = None
+    for d in (False, True):
+        a = make_array(prog, [(0, 0), (1, 1)], (not d, d), fermionic=True)
+        evals = Obj(prog.cls("BlockVector"), {"_blocks": {0: Tok(("ev", 0)), 1: Tok(("ev", 1))}})
+        evecs = make_array(prog, [(0, 0), (1, 1)], (not d, d), fermionic=True)
+        ev = evaluator(prog, extra={"eigh.dispatch": lambda cls, _r=(evals, evecs): (lambda *a_, **k: _r)})
+        try:
+            res = guard("eigh_fermionic", lambda: ev.call(f, [a]))
+        except Raised as e:
+            bad = bad or f"raised {e.what[:60]}"
+            continue
+        vals = res[0].fields["_blocks"]
+        for c, tok in vals.items():
+            neg = isinstance(tok.term, tuple) and tok.term[0] == "neg"
+            # the eigenvector matrix is the left factor; its bond (second index, direction d) is the first of the pair
+            want = (not d) and bool(c % 2)
+            if neg != want:
+                bad = bad or f"bond direction dual={d}: eigenvalues of charge {c} negated={neg}, expected {want}"
+    ctx.check(bad is None, rid, f, f.node, "eigh pair sign",
+              "eigh carries the pair sign on the odd-charge eigenvalues iff the eigenvector bond (first of the pair) is non-dual"
+              + ("" if bad is None else f" — witness: {bad}"))
+
+    # ---------------- tensordot: layout-trivial cases (a's last axes with b's first axes)
+    f = prog.func(f"{FC}:tensordot_fermionic")
+    bad = None
+    n = 0
+    secs_a = [s_ for s_ in itertools.product((0, 1), repeat=2)]
+    for da, db, bigger in itertools.product((False, True), (False, True), ("a", "b")):
+        rec = []
+
+        def core(a_, b_, axes=None, preserve_array=False, **kw):
+            rec.append((a_, b_, axes))
+            return make_array(prog, [(0, 0)], (False, True), fermionic=True)
+
+        sa_secs = secs_a if bigger == "b" else [s_ for s_ in itertools.product((0, 1), repeat=3)]
+        sb_secs = secs_a if bigger == "a" else [s_ for s_ in itertools.product((0, 1), repeat=3)]
+        a = make_array(prog, sa_secs, (False,) * (len(sa_secs[0]) - 1) + (da,), fermionic=True)
+        b = make_array(prog, sb_secs, (db,) + (True,) * (len(sb_secs[0]) - 1), fermionic=True)
+        ev = evaluator(prog, extra={"tensordot_abelian": core, "resolve_combined_oddpos": lambda *x: None})
+        try:
+            guard("tensordot_fermionic", lambda: ev.call(f, [a, b], {"axes": 1, "preserve_array": True}))
+        except Raised as e:
+            bad = bad or f"raised {e.what[:60]}"
+            continue
+        n += 1
+        if len(rec) != 1:
+            bad = bad or "block contraction not called exactly once"
+            continue
+        ra, rb, axes = rec[0]
+        if tuple(map(tuple, axes)) != ((len(sa_secs[0]) - 1,), (0,)):
+            bad = bad or f"block contraction axes {axes}"
+        sa, sb = _signs(ra), _signs(rb)
+        for sec_a in sa_secs:
+            for sec_b in sb_secs:
+                if sec_a[-1] != sec_b[0]:
+                    continue
+                total = sa[sec_a] * sb[sec_b]
+                # ket-then-bra: a's contracted leg non-dual (and b's dual, since they match)
+                want = -1 if ((not da) and sec_a[-1] % 2) else 1
+                if db == (not da) and total != want:
+                    bad = bad or (f"contracted pair directions (a non-dual={not da}): sectors {sec_a},{sec_b} carry total sign "
+                                  f"{total}, expected {want}")
+    ctx.check(bad is None, rid, f, f.node, "tensordot pair sign",
+              f"tensordot inserts one sign per odd contracted charge iff the pair is ket-then-bra, whichever operand is larger "
+              f"({n} configurations)" + ("" if bad is None else f" — witness: {bad}"))
+
+    # ---------------- einsum sort key (closed expression over directions)
+    f = prog.func(f"{FC}:FermionicArray.einsum")
+    bad = None
+    for d0, d1 in ((False, True), (True, False)):
+        rec = []
+
+        def core(x, eq, preserve_array=False, _rec=rec):
+            _rec.append((x, eq))
+            return 0.0
+
+        x = make_array(prog, SEC2, (d0, d1), fermionic=True)
+        ev = evaluator(prog, extra={"AbelianArray.einsum": core})
+        try:
+            guard("FermionicArray.einsum", lambda: ev.call(f, ["aa->"], self_obj=x))
+        except Raised as e:
+            bad = bad or f"raised {e.what[:60]}"
+            continue
+        arr, eq = rec[0]
+        duals = tuple(ix.fields["_dual"] for ix in arr.fields["_indices"])
+        if duals != (True, False):
+            bad = bad or f"traced pair with directions ({d0},{d1}) is presented to the block einsum as {duals}, expected (bra, ket)"
+    ctx.check(bad is None, rid, f, f.node, "einsum pair order", "einsum orders every traced pair as (bra, ket), which needs no pair sign"
+              + ("" if bad is None else f" — witness: {bad}"))
+    ctx.minimum(rid, 8, "eight pair-sign sites")
 
 
 def check_permutation_use(prog, ctx):
+    """R03.2: the contraction lays its operands out as [free..., contracted...] / [contracted..., free...] and reverses
+    exactly the contracted axes virtually - decided by evaluating the index arithmetic for small ranks."""
+    import itertools
+
+    from engine.absarray import evaluator, make_array
+    from engine.minieval import Raised, Unsupported
+
     rid = "R03.2"
-    f = prog.func(f"{FC}:FermionicArray.transpose")
-    calls = [c for c in ast.walk(f.node) if isinstance(c, ast.Call) and src(c.func) == "calc_phase_permutation"]
-    phys = [c for c in ast.walk(f.node) if isinstance(c, ast.Call) and src(c.func) == "AbelianArray.transpose"]
-    ctx.need(len(calls) == 1 and len(phys) == 1, "FermionicArray.transpose: sign call / physical transpose not found")
-    ctx.check(src(calls[0].args[1]) == src(phys[0].args[1]), rid, f, calls[0], src(calls[0]),
-              "the sign is computed for the very permutation that is applied to the blocks")
-    par = [a for a in ast.walk(f.node) if isinstance(a, ast.Assign) and src(a.targets[0]) == src(calls[0].args[0])]
-    ctx.check(len(par) == 1 and src(par[0].value) == "tuple((new.symmetry.parity(q) for q in sector))", rid, f, calls[0], "parities",
-              "the parities are those of the sector's charges in their current (pre-transpose) order")
-    ok = any(isinstance(n, ast.Assign) and src(n.targets[0]) == "new_phase" and src(n.value) == "old_phases.get(sector, 1) * perm_phase"
-             for n in ast.walk(f.node))
-    ctx.check(ok, rid, f, f.node, "accumulate", "the permutation sign multiplies the sign already pending for that sector")
-    g = prog.func(f"{FC}:tensordot_fermionic")
-    ta = [c for c in walk_own(g.node) if isinstance(c, ast.Call) and src(c.func) == "a.transpose"]
-    tb = [c for c in walk_own(g.node) if isinstance(c, ast.Call) and src(c.func) == "b.transpose"]
-    ok = len(ta) == 1 and len(tb) == 1 and src(ta[0].args[0]) == "(*left_axes, *axes_a)" and src(tb[0].args[0]) == "(*axes_b, *right_axes)"
-    ctx.check(ok, rid, g, g.node, "layouts", "operands are brought to [free..., contracted...] and [contracted..., free...] by fermionic transposes")
-    pt = [c for c in walk_own(g.node) if isinstance(c, ast.Call) and src(c.func) == "b.phase_transpose"]
-    ok = len(pt) == 1 and src(pt[0].args[0]) == "(*range(ncon - 1, -1, -1), *range(ncon, b.ndim))"
-    ctx.check(ok, rid, g, pt[0] if pt else g.node, src(pt[0].args[0]) if pt else "", "the virtual reversal acts on exactly b's first ncon (contracted) axes")
-    nc = [a for a in walk_own(g.node) if isinstance(a, ast.Assign) and src(a.targets[0]) == "ncon"]
-    ctx.check(len(nc) == 1 and src(nc[0].value) == "len(axes_a)", rid, g, g.node, "ncon", "ncon is the number of contracted pairs")
-    td = [c for c in walk_own(g.node) if isinstance(c, ast.Call) and src(c.func) == "tensordot_abelian"]
-    ok = len(td) == 1 and any(k.arg == "axes" and src(k.value) == "(new_axes_a, new_axes_b)" for k in td[0].keywords) \
-        and [src(a) for a in td[0].args] == ["a", "b"]
-    ctx.check(ok, rid, g, g.node, "abelian contraction", "the block contraction pairs a's last ncon with b's first ncon axes")
-    ctx.minimum(rid, 7, "transpose (3) + contraction (4)")
+    f = prog.func(f"{FC}:tensordot_fermionic")
+    fcls = prog.cls("FermionicArray")
+    bad = None
+    n = 0
+    for nda, ndb in ((2, 2), (3, 2), (3, 3)):
+        for ncon in range(0, min(nda, ndb) + 1):
+            for axa in itertools.permutations(range(nda), ncon):
+                for axb in itertools.permutations(range(ndb), ncon):
+                    if n > 400:
+                        break
+                    log = []
+
+                    def rec_transpose(self_, axes=None, phase=True, inplace=False, _log=log):
+                        _log.append(("transpose", len(self_.fields["_indices"]), tuple(axes)))
+                        return make_array(prog, [tuple([0] * len(self_.fields["_indices"]))], (False,) * len(self_.fields["_indices"]), fermionic=True)
+
+                    def rec_ptranspose(self_, axes=None, inplace=False, _log=log):
+                        _log.append(("phase_transpose", len(self_.fields["_indices"]), tuple(axes)))
+                        return self_
+
+                    def core(a_, b_, axes=None, preserve_array=False, **kw):
+                        log.append(("contract", tuple(map(tuple, axes))))
+                        return make_array(prog, [()], (), fermionic=True)
+
+                    a = make_array(prog, [tuple([0] * nda)], (False,) * nda, fermionic=True)
+                    b = make_array(prog, [tuple([0] * ndb)], (True,) * ndb, fermionic=True)
+                    ev = evaluator(prog, extra={"tensordot_abelian": core, "resolve_combined_oddpos": lambda *x: None},
+                                   )
+                    ev.method_stubs = {"transpose": rec_transpose, "phase_transpose": rec_ptranspose}
+                    try:
+                        ev.call(f, [a, b], {"axes": (axa, axb), "preserve_array": True})
+                    except Unsupported as e:
+                        raise AnalysisError(f"tensordot_fermionic outside the evaluable sub-language: {e}")
+                    except Raised as e:
+                        bad = bad or f"axes {(axa, axb)}: raised {e.what[:50]}"
+                        continue
+                    n += 1
+                    left = tuple(i for i in range(nda) if i not in axa)
+                    right = tuple(i for i in range(ndb) if i not in axb)
+                    want = [("transpose", nda, left + tuple(axa)), ("transpose", ndb, tuple(axb) + right),
+                            ("phase_transpose", ndb, tuple(range(ncon - 1, -1, -1)) + tuple(range(ncon, ndb))),
+                            ("contract", (tuple(range(nda - ncon, nda)), tuple(range(ncon))))]
+                    if log != want:
+                        bad = bad or f"ranks ({nda},{ndb}) axes {(axa, axb)}: performed {log}, expected {want}"
+    ctx.check(bad is None, rid, f, f.node, "contraction layout",
+              f"operands are transposed to [free, contracted] / [contracted, free], exactly b's contracted axes are reversed virtually, "
+              f"and the block contraction pairs a's last with b's first axes ({n} axes choices evaluated)"
+              + ("" if bad is None else f" — witness: {bad}"))
+    ctx.minimum(rid, 1, "contraction layout")
 
 
 def check_koszul(prog, ctx):
@@ -227,8 +370,12 @@ def check_koszul(prog, ctx):
 
 def run(prog, ctx):
     ctx.rule("R03.1", "every pair-sign site: sign iff the first index of the contracted pair is non-dual / the second is dual")
+    ctx.rule("R09.2", "transpose / dagger / _map_blocks: blocks and pending signs are re-keyed by the same map, signs multiplied by the Koszul sign (shared with C09)")
     ctx.rule("R03.2", "sign permutation == data permutation in transpose; contraction layout and virtual reversal of exactly the contracted axes")
     ctx.rule("R03.3", "calc_phase_permutation == (-1)^(inversions among odd entries), exhaustive for length <= 4")
+    from rules.c09_typestate import check_mirrors
+
     check_convention(prog, ctx)
     check_permutation_use(prog, ctx)
+    check_mirrors(prog, ctx)  # transpose: the sign is the Koszul sign of the very permutation applied to the blocks
     check_koszul(prog, ctx)
